@@ -17,7 +17,7 @@ import (
 
 // judgeOnly: the observation travels in the op line (`op | out`) and the implementation column is `-`;
 // otherwise the Lean model of XOR2 (PromModel/Tsdb/ChunkXor2.lean) has to reproduce every output line.
-const judgeOnly = true
+const judgeOnly = false
 
 type state struct {
 	chunk chunkenc.Chunk
